@@ -101,19 +101,19 @@ func musigConfigs(ctx *vrun.Ctx) []musigCfg {
 	var cs []musigCfg
 	// algebra, raw API, every value of the listed ranges
 	if !ctx.Thorough {
-		cs = append(cs, musigCfg{name: "algebra-2signers", q: 5, signers: 2, tweaks: 2, keys: nz5, coefs: []int{0, 2, 3}, tvals: []int{2}, n1: nz5, n2: []int{1},
+		cs = append(cs, musigCfg{name: "algebra-2signers", q: 5, signers: 2, tweaks: 2, keys: nz5, coefs: []int{0, 3}, tvals: []int{2}, n1: nz5, n2: []int{1},
 			bvals: all5, evals: []int{2}, sorts: []bool{false}, apis: []string{"raw"}, taps: gen})
 		cs = append(cs, musigCfg{name: "session-2signers", q: 5, signers: 2, tweaks: 0, noise: 1, keys: []int{1, 3}, coefs: []int{2}, tvals: []int{1}, n1: []int{1, 4}, n2: []int{1, 4},
 			bvals: []int{1}, evals: []int{2}, sorts: []bool{false}, apis: []string{"session"}, taps: gen, faults: true})
 	} else {
 		cs = append(cs, musigCfg{name: "algebra-2signers", q: 5, signers: 2, tweaks: 2, keys: nz5, coefs: all5, tvals: []int{1, 3}, n1: nz5, n2: []int{1, 2},
-			bvals: all5, evals: []int{0, 2}, sorts: []bool{false}, apis: []string{"raw"}, taps: gen, timeout: 25 * time.Minute})
-		cs = append(cs, musigCfg{name: "algebra-3signers", q: 5, signers: 3, tweaks: 1, keys: nz5, coefs: []int{0, 2, 3}, tvals: []int{1, 3}, n1: nz5, n2: []int{1},
-			bvals: all5, evals: []int{2}, sorts: []bool{false}, apis: []string{"raw"}, taps: gen, timeout: 25 * time.Minute})
-		cs = append(cs, musigCfg{name: "algebra-q7-sorted-faults", q: 7, signers: 2, tweaks: 1, keys: seq(1, 6), coefs: []int{0, 3, 5}, tvals: []int{0, 2, 5}, n1: seq(1, 6), n2: []int{1},
-			bvals: seq(0, 6), evals: []int{3}, sorts: []bool{true}, apis: []string{"raw"}, taps: gen, faults: true, timeout: 25 * time.Minute})
+			bvals: all5, evals: []int{2}, sorts: []bool{false}, apis: []string{"raw"}, taps: gen, timeout: 28 * time.Minute})
+		cs = append(cs, musigCfg{name: "algebra-3signers", q: 5, signers: 3, tweaks: 1, keys: nz5, coefs: []int{0, 2, 3}, tvals: []int{1, 3}, n1: []int{1, 2, 4}, n2: []int{1},
+			bvals: all5, evals: []int{2}, sorts: []bool{false}, apis: []string{"raw"}, taps: gen, timeout: 28 * time.Minute})
+		cs = append(cs, musigCfg{name: "algebra-q7-sorted-faults", q: 7, signers: 2, tweaks: 1, keys: seq(1, 6), coefs: []int{0, 3, 5}, tvals: []int{0, 2, 5}, n1: []int{1, 2, 3, 5}, n2: []int{1},
+			bvals: seq(0, 6), evals: []int{3}, sorts: []bool{true}, apis: []string{"raw"}, taps: gen, faults: true, timeout: 28 * time.Minute})
 		cs = append(cs, musigCfg{name: "session-2signers", q: 5, signers: 2, tweaks: 1, noise: 1, keys: []int{1, 3}, coefs: []int{2}, tvals: []int{1}, n1: []int{1, 4}, n2: []int{1, 4},
-			bvals: []int{1, 3}, evals: []int{2}, sorts: []bool{false}, apis: []string{"session"}, taps: gen, faults: true, timeout: 25 * time.Minute})
+			bvals: []int{1}, evals: []int{2}, sorts: []bool{false}, apis: []string{"session"}, taps: gen, faults: true, timeout: 28 * time.Minute})
 	}
 	// random behaviours of the whole protocol for the replay
 	for i, q := range []int{5, 7} {
@@ -155,12 +155,12 @@ func runMusig(ctx *vrun.Ctx) error {
 			if to == 0 {
 				to = 10 * time.Minute
 			}
-			w := 2
+			w := 3
 			if c.sim != nil {
 				w = 1
 			}
 			res, err := tlc.Run(tlc.Opts{SpecDir: ctx.SpecDir("secp"), Module: "Musig2", CfgText: c.text(), Workers: w, Timeout: to,
-				Sim: c.sim, Coverage: ctx.Thorough && c.sim == nil, Scratch: ctx.Scratch, HeapGB: 4})
+				Sim: c.sim, Scratch: ctx.Scratch, HeapGB: 4}) // no -coverage: unusably slow on the recursive sums; see the action census below
 			outs[i] = out{res, err}
 		}(i)
 	}
@@ -189,17 +189,18 @@ func runMusig(ctx *vrun.Ctx) error {
 		}
 		ctx.AddModel(res.Distinct, res.Generated)
 		ctx.AddExtra("musig2_exhaustive_states", res.Distinct)
-		for a, n := range res.ActionCount {
-			acts[a] += n
-		}
 		ctx.Logf("musig2 %s: invariants hold on %d distinct states (%d generated, depth %d, %.0fs)", c.name, res.Distinct, res.Generated, res.Depth, res.WallS)
 	}
-	if ctx.Thorough {
-		for _, a := range []string{"ChooseKeys", "ChooseVals", "ChooseCoef", "AddTweak", "Setup", "GenNonce", "NoncesDone", "ChooseHash", "Evaluate",
-			"RegisterPubNonceA", "RegisterCombinedNonceA", "SessionSignA", "SessionVerifyA", "CombineSigA"} {
-			if acts[a] == 0 {
-				return fmt.Errorf("musig2: vacuity: action %s never taken in the exhaustive runs", a)
-			}
+	// vacuity: every action of the specification occurs in the behaviours (census by `last.act`)
+	for _, b := range behs {
+		for _, st := range b.states {
+			acts[st.State["last"].F("act").Str()]++
+		}
+	}
+	for _, a := range []string{"ChooseKeys", "ChooseVals", "ChooseCoef", "AddTweak", "Setup", "GenNonce", "NoncesDone", "ChooseHash", "Evaluate",
+		"RegisterPubNonce", "RegisterCombinedNonce", "Sign", "Verify", "VerifyCorrupted", "CombineSig", "CombineCorrupted"} {
+		if acts[a] == 0 {
+			return fmt.Errorf("musig2: vacuity: action %s never taken in the simulated behaviours", a)
 		}
 	}
 	if len(behs) == 0 {
